@@ -90,16 +90,19 @@ func genTimes(r *hx.Rng) (string, []int64) {
 		}
 		return "extremes", xs
 	default: // a delta at / around simple8b.MaxValue (the time coder tests `<`, the int coder `>`)
-		v := int64(r.U64() & (1<<40 - 1))
-		for i := range xs {
-			xs[i] = v
-			v += int64(1 + r.Intn(1000))
-		}
 		if n > 2 {
 			j := 1 + r.Intn(n-1)
-			d := int64(1<<60) - 2 + int64(r.Intn(3)) // MaxValue-1, MaxValue, MaxValue+1
-			for i := j; i < n; i++ {
-				xs[i] += d
+			if r.Chance(40) {
+				j = n - 1 // the last delta is tested first, on its own line of encodingInit
+			}
+			v := int64(r.U64() & (1<<40 - 1))
+			for i := range xs {
+				xs[i] = v
+				if i+1 == j {
+					v += int64(1<<60) - 2 + int64(r.Intn(3)) // exactly MaxValue-1, MaxValue, MaxValue+1
+				} else {
+					v += int64(1 + r.Intn(1000))
+				}
 			}
 		}
 		return "maxvalue-delta", xs
